@@ -47,6 +47,13 @@ def run(ctx, out):
                 for driver in ("parfile", "parblock"):
                     cases.append(dict(mode=0o6755, mtime=MTIMES[0], xattr=XATTRS[2], ids=(1234, 42), flags=flags, driver=driver,
                                       prior=rng.choice([None, 0o4700]), size=9000, bs=1000, workers=4))
+    # ownership: every id pair explicitly (same uid as the copying process with another group, set-gid, both differ),
+    # fresh and pre-existing destinations, both drivers
+    for ids in IDS + [(0, 4321), (4321, 0)]:
+        for mode in (0o644, 0o2755, 0o6755):
+            for driver in ("parfile", "parblock"):
+                cases.append(dict(mode=mode, mtime=MTIMES[1], xattr=XATTRS[1], ids=ids, flags=["--ownership"], driver=driver,
+                                  prior=(None if mode != 0o2755 else 0o600), size=3000, bs=1000, workers=2))
     minputs = []
     obs = []
     for k, c in enumerate(cases):
